@@ -65,7 +65,10 @@ theorem translate_blind (ch : Char) : Blind (fun s => translate s ch) := by
     · rfl
     · split
       · rfl
-      · show mapOut strip ((growRows s.rows (lastLineOf s)).andThen _) = mapOut strip ((growRows s.rows (lastLineOf s)).andThen _)
+      · show mapOut strip (if s.x ≥ maxSize ∨ lastLineOf s > maxSize then _ else _) = mapOut strip (if s.x ≥ maxSize ∨ lastLineOf s > maxSize then _ else _)
+        split
+        · rfl
+        show mapOut strip ((growRows s.rows (lastLineOf s)).andThen _) = mapOut strip ((growRows s.rows (lastLineOf s)).andThen _)
         cases growRows s.rows (lastLineOf s) with
         | ok rows =>
           simp only [Out.andThen]
@@ -135,12 +138,12 @@ theorem colorArm_blind : Blind colorArm := by
   rw [hs]
   generalize setColor s = u
   unfold defineColor
-  show mapOut strip (if u.nums.length > 1 then (if u.nums.length ≠ 5 then _ else match u.nums[1]? with
+  show mapOut strip (if u.nums.length > 1 then (if u.nums.length ≠ 5 ∨ u.color ≥ maxColors then _ else match u.nums[1]? with
       | some 2 => (match u.nums[2]?, u.nums[3]?, u.nums[4]? with | some _, some _, some _ => growPalette u | _, _, _ => .panic .numIndex)
       | some 1 => (match u.nums[2]?, u.nums[3]?, u.nums[4]? with | some _, some _, some _ => growPalette u | _, _, _ => .panic .numIndex)
       | some _ => .err .unsupportedColorFormat
       | none => .err .invalidColor) else _) =
-    mapOut strip (if u.nums.length > 1 then (if u.nums.length ≠ 5 then _ else match u.nums[1]? with
+    mapOut strip (if u.nums.length > 1 then (if u.nums.length ≠ 5 ∨ u.color ≥ maxColors then _ else match u.nums[1]? with
       | some 2 => (match u.nums[2]?, u.nums[3]?, u.nums[4]? with | some _, some _, some _ => growPalette (strip u) | _, _, _ => .panic .numIndex)
       | some 1 => (match u.nums[2]?, u.nums[3]?, u.nums[4]? with | some _, some _, some _ => growPalette (strip u) | _, _, _ => .panic .numIndex)
       | some _ => .err .unsupportedColorFormat
@@ -166,10 +169,10 @@ theorem sizeArm_blind : Blind sizeArm := by
   have hrows : (strip s).rows = s.rows := rfl
   show mapOut strip (sizeArm s) = mapOut strip (sizeArm (strip s))
   unfold sizeArm
-  show mapOut strip (if s.nums.length < 2 ∨ s.nums.length > 4 then _ else match s.nums[0]?, s.nums[1]? with
+  show mapOut strip (if s.nums.length < 2 ∨ s.nums.length > 4 ∨ (s.nums.drop 2).any (fun n => decide (n > maxSize)) then _ else match s.nums[0]?, s.nums[1]? with
       | some vs, some hs => _
       | _, _ => _) =
-    mapOut strip (if s.nums.length < 2 ∨ s.nums.length > 4 then _ else match s.nums[0]?, s.nums[1]? with
+    mapOut strip (if s.nums.length < 2 ∨ s.nums.length > 4 ∨ (s.nums.drop 2).any (fun n => decide (n > maxSize)) then _ else match s.nums[0]?, s.nums[1]? with
       | some vs, some hs => _
       | _, _ => _)
   split
@@ -224,7 +227,10 @@ theorem parseChar_blind (ch : Char) : Blind (fun s => parseChar s ch) := by
       | none => rfl
       | some n =>
         have hb : Blind (fun s' : St => (Out.ok { s' with state := PState.read } : Out St)) := fun _ => rfl
-        exact se_andThen (repeatN_blind (sixelData_blind ch) n _) hb
+        show mapOut strip (if n > maxSize then _ else _) = mapOut strip (if n > maxSize then _ else _)
+        split
+        · rfl
+        · exact se_andThen (repeatN_blind (sixelData_blind ch) n _) hb
 
 theorem run_blind (cs : List Char) : Blind (fun s => run s cs) := by
   induction cs with
